@@ -89,7 +89,15 @@ func (d *database[T, O]) startRotationTask() error {
 					defer d.rotationProcessOn.Store(false)
 					t := time.Unix(0, ts)
 					if rt != nil {
-						rt.run(taskCtx, t, d.logger)
+						// The tick carries the event time of written data, which a
+						// single future-dated point can push arbitrarily far ahead.
+						// Retention must never run ahead of the clock, otherwise
+						// segments younger than the TTL would be removed.
+						retentionNow := t
+						if now := d.segmentController.clock.Now(); retentionNow.After(now) {
+							retentionNow = now
+						}
+						rt.run(taskCtx, retentionNow, d.logger)
 					}
 					func() {
 						ss, err := d.segmentController.segments(taskCtx, true) // Ensure segments are open
